@@ -161,6 +161,9 @@ func cmdConc(args []string) int {
 	accum := args[3] == "accum"
 	r := newRng(seed)
 	pool := concPool(r, 24, accum)
+	if args[3] == "cold" {
+		return concCold(r, pool, ng, per)
+	}
 	// sequential baseline, each call from fresh package state
 	base := make([]string, len(pool))
 	for i, in := range pool {
@@ -202,6 +205,53 @@ func cmdConc(args []string) int {
 	close(start)
 	wg.Wait()
 	fmt.Printf("CONC calls=%d diffs=%d goroutines=%d pool=%d accum=%v\n", calls, diffs, ng, len(pool), accum)
+	return 0
+}
+
+// concCold: the concurrent phase is the first thing the process does with the library (nothing is
+// warmed up by a sequential baseline: anything built lazily on first use is built while other
+// goroutines are already using it); the baseline is computed afterwards.
+func concCold(r *rng, pool []concInput, ng, per int) int {
+	type rec struct {
+		i   int
+		out string
+	}
+	outs := make([][]rec, ng)
+	var wg sync.WaitGroup
+	start := make(chan struct{})
+	for g := 0; g < ng; g++ {
+		wg.Add(1)
+		gr := r.fork()
+		go func(g int) {
+			defer wg.Done()
+			<-start
+			for k := 0; k < per; k++ {
+				i := gr.intn(len(pool))
+				outs[g] = append(outs[g], rec{i, concCall(pool[i])})
+			}
+		}(g)
+	}
+	close(start)
+	wg.Wait()
+	base := make([]string, len(pool))
+	have := make([]bool, len(pool))
+	calls, diffs := 0, 0
+	for _, rs := range outs {
+		for _, x := range rs {
+			if !have[x.i] {
+				fit.VerifSetAccumulators([3]fit.VerifAccu{})
+				base[x.i], have[x.i] = concCall(pool[x.i]), true
+			}
+			calls++
+			if x.out != base[x.i] {
+				diffs++
+				if diffs <= 3 {
+					fmt.Printf("DIFF input=%d kind=%s\n", x.i, pool[x.i].kind)
+				}
+			}
+		}
+	}
+	fmt.Printf("CONC calls=%d diffs=%d goroutines=%d pool=%d accum=%v cold=true\n", calls, diffs, ng, len(pool), false)
 	return 0
 }
 
@@ -255,7 +305,7 @@ func init() {
 	propGens["C09"] = func(r *rng, thorough bool) ([]CaseSet, string, bool) {
 		// the concurrent runs happen in propPost; a few sequential cases keep the model tie visible
 		return []CaseSet{genRandomStreams(r, "sequential-baseline", 200, fullKnobs(), "011")},
-			"goroutine counts {2,4,8,16,32} x random calls (Decode with options, DecodeChained, CheckIntegrity, DecodeHeaderAndFileID, Encode in both byte orders) over a pool in which every input is used by several goroutines at once, in a binary built with -race; pool A never touches the accumulators (no race report and every result equal to the sequential baseline required), pool B holds component-bearing records (races on the three listed accumulators are the known finding D12; any other race or difference is a violation)", false
+			"goroutine counts {2,4,8,16,32} x random calls (Decode with options, DecodeChained, CheckIntegrity, DecodeHeaderAndFileID, Encode in both byte orders) over a pool in which every input is used by several goroutines at once, in a binary built with -race; pool A never touches the accumulators (no race report and every result equal to the sequential baseline required), pool B holds component-bearing records (races on the three listed accumulators are the known finding D12; any other race or difference is a violation); cold starts: fresh processes whose very first use of the library is the concurrent phase (lazily built shared data), baseline computed afterwards", false
 	}
 	propPost["C09"] = func(res *RunResult) {
 		postNoPanic(res)
@@ -273,11 +323,31 @@ func init() {
 		os.RemoveAll(logDir)
 		os.MkdirAll(logDir, 0o755)
 		total := 0
+		type concRun struct {
+			mode    string
+			ng, per int
+			tag     string
+		}
+		var runs []concRun
 		for _, mode := range []string{"pure", "accum"} {
 			for _, ng := range []int{2, 4, 8, 16, 32} {
-				sub := filepath.Join(logDir, fmt.Sprintf("%s-%d", mode, ng))
+				runs = append(runs, concRun{mode, ng, per, fmt.Sprintf("%s-%d", mode, ng)})
+			}
+		}
+		// cold starts: fresh processes whose first use of the library is concurrent
+		ncold := 6
+		if res.Tier == "thorough" {
+			ncold = 40
+		}
+		for i := 0; i < ncold; i++ {
+			runs = append(runs, concRun{"cold", []int{4, 8, 16, 32}[i%4], 6, fmt.Sprintf("cold-%d", i)})
+		}
+		for ri, run := range runs {
+			{
+				mode, ng, per := run.mode, run.ng, run.per
+				sub := filepath.Join(logDir, run.tag)
 				os.MkdirAll(sub, 0o755)
-				cmd := exec.Command(bin, "conc", fmt.Sprint(res.Seed+uint64(ng)), fmt.Sprint(ng), fmt.Sprint(per), mode)
+				cmd := exec.Command(bin, "conc", fmt.Sprint(res.Seed+uint64(ng)+uint64(1000*ri)*uint64(b2i(mode == "cold"))), fmt.Sprint(ng), fmt.Sprint(per), mode)
 				cmd.Env = append(os.Environ(), "GORACE=halt_on_error=0 log_path="+filepath.Join(sub, "log"))
 				out, err := cmd.CombinedOutput()
 				s := string(out)
@@ -297,12 +367,12 @@ func init() {
 					} else {
 						unknown++
 						if unknown <= 2 {
-							addViolation(res, fmt.Sprintf("conc %d %d %d %s", res.Seed+uint64(ng), ng, per, mode), clip(rp.text), "data race outside the known accumulator sites")
+							addViolation(res, fmt.Sprintf("conc %d %d %d %s", res.Seed+uint64(ng)+uint64(1000*ri)*uint64(b2i(mode == "cold")), ng, per, mode), clip(rp.text), "data race outside the known accumulator sites")
 						}
 					}
 				}
 				if diffs > 0 {
-					addViolation(res, fmt.Sprintf("conc %d %d %d %s", res.Seed+uint64(ng), ng, per, mode), s, "a concurrent call returned a different result than the sequential baseline")
+					addViolation(res, fmt.Sprintf("conc %d %d %d %s", res.Seed+uint64(ng)+uint64(1000*ri)*uint64(b2i(mode == "cold")), ng, per, mode), s, "a concurrent call returned a different result than the sequential baseline")
 				}
 			}
 		}
@@ -310,4 +380,11 @@ func init() {
 		res.Stats.Distinct += total / 4
 		res.Notes = append(res.Notes, fmt.Sprintf("%d concurrent calls under the race detector", total))
 	}
+}
+
+func b2i(b bool) int {
+	if b {
+		return 1
+	}
+	return 0
 }
